@@ -409,13 +409,19 @@ def show(v):
     return repr(v)
 
 
+_OPAQUE_BY_CANON = {}
+
+
 def as_poly(v):
     if isinstance(v, Poly):
         return v
     if isinstance(v, Sym):
         return S(v.path)
     if isinstance(v, VOpaque):
-        return S(v.canon())
+        c_ = v.canon()
+        if v.name == "some_of":
+            _OPAQUE_BY_CANON[c_] = v      # lets Interp.int_value see through `some_of(checked_add(..))` inside polynomials
+        return S(c_)
     if isinstance(v, bool):
         raise OutsideFragment("bool used as ring element")
     if isinstance(v, int):
@@ -543,6 +549,66 @@ class Interp:
             if hb is not None:
                 out.append(as_poly(hb))
         return out
+
+    def int_value(self, v):
+        """the integer a value denotes, as a polynomial in non-negative integer symbols, where that is known: the payload of a checked
+        addition / multiplication that was found to be Some is the plain sum / product"""
+        if isinstance(v, VOpaque) and v.name == "some_of" and len(v.args) == 1 and isinstance(v.args[0], VOpaque):
+            o = v.args[0]
+            if o.name == "checked_add" and len(o.args) == 2:
+                return self.int_value(o.args[0]) + self.int_value(o.args[1])
+            if o.name == "checked_mul" and len(o.args) == 2:
+                return self.int_value(o.args[0]) * self.int_value(o.args[1])
+            if o.name == "and_then" and len(o.args) == 2:
+                return self.int_value(VOpaque("some_of", [o.args[1]]))
+        if isinstance(v, Poly):
+            # symbols of the polynomial that are themselves such payloads
+            out = C(0)
+            for mono, c in v.t.items():
+                term = C(c)
+                for name, exp in mono:
+                    sv = _OPAQUE_BY_CANON.get(name)
+                    base = self.int_value(sv) if sv is not None and isinstance(sv, VOpaque) and sv.name == "some_of" else S(name)
+                    term = term * (base ** exp)
+                out = out + term
+            return out
+        return as_poly(v)
+
+    def len_lower_bounds(self, x):
+        """lower bounds on len(x), also through tail windows: len(b[lo..]) = len(b) - lo"""
+        out = [self.int_value(b) for b in self._len_bounds(x, True)]
+        if isinstance(x, VOpaque) and x.name == "slice" and len(x.args) == 3 and x.args[2] == "end":
+            b, lo = x.args[0], self.int_value(as_poly(x.args[1]))
+            # every tail window of the same buffer whose length some decided condition / exit speaks about
+            wins, seen = [b], {canon(b)}
+            for c_, _t in list(self.path_conds) + [(e_[1], False) for e_ in self.ctx.exits if e_[0] == "err_if" and not isinstance(e_[1], str)]:
+                for a_ in (c_.args if isinstance(c_, VOpaque) else []):
+                    if isinstance(a_, VOpaque) and a_.name == "len" and a_.args and isinstance(a_.args[0], VOpaque) and a_.args[0].name == "slice" \
+                            and len(a_.args[0].args) == 3 and a_.args[0].args[2] == "end" and canon(a_.args[0].args[0]) == canon(b) \
+                            and canon(a_.args[0]) not in seen:
+                        seen.add(canon(a_.args[0]))
+                        wins.append(a_.args[0])
+            for base_win in wins:
+                off = lo - (as_poly(base_win.args[1]) if isinstance(base_win, VOpaque) and base_win.name == "slice" else C(0))
+                if not _poly_nonneg(off):
+                    continue
+                for bb in self._len_bounds(base_win, True):
+                    out.append(self.int_value(bb) - off)
+        return out
+
+    def exit_err_if(self, cond, what):
+        """record the exit `if cond { return Err(what) }` - unless the condition is `len(x) < k` and the path already knows len(x) >= k
+        (an unreachable exit is not part of the function's behaviour)"""
+        c = _norm_cond(cond)
+        if isinstance(c, VOpaque) and c.name == "lt" and len(c.args) == 2 and isinstance(c.args[0], VOpaque) and c.args[0].name == "len":
+            try:
+                k = self.int_value(as_poly(c.args[1]))
+                if any(_poly_nonneg(lb - k) for lb in self.len_lower_bounds(c.args[0].args[0])):
+                    self.calls.append("PRUNED-UNREACHABLE-EXIT:" + canon(c)[:80])
+                    return
+            except OutsideFragment:
+                pass
+        self.ctx.exits.append(("err_if", c, what))
 
     def need_len(self, base, req, what):
         """an operation that panics unless len(base) >= req: the requirement must follow from what is known on this path"""
@@ -1194,7 +1260,7 @@ class Interp:
             if (err_then is None) != (err_else is None):
                 rv = self.expr(err_then or err_else, env)
                 if isinstance(rv, VErr):
-                    self.ctx.exits.append(("err_if", _norm_cond(c if err_then is not None else VOpaque("not", [c])), rv.what))
+                    self.exit_err_if(c if err_then is not None else VOpaque("not", [c]), rv.what)
                     return self.expr(e["else"], env) if err_then is not None else self.block(e["then"], env)
         # symbolic condition: only the shape `if cond { return Err(..) }` (no else) is in the fragment
         if e["else"] is None:
@@ -1202,7 +1268,7 @@ class Interp:
             if len(st) == 1 and st[0]["k"] == "expr" and st[0]["expr"]["k"] == "return" and st[0]["expr"].get("e") is not None:
                 rv = self.expr(st[0]["expr"]["e"], env)
                 if isinstance(rv, VErr):
-                    self.ctx.exits.append(("err_if", _norm_cond(c), rv.what))
+                    self.exit_err_if(c, rv.what)
                     return UNIT
             # guarded effects: `if c { effects }` where the block only produces trace events (no assignment to
             # outer state, no early return): recorded as ONE event  if(c, [events])
@@ -1414,6 +1480,10 @@ class Interp:
         if isinstance(v, tuple) and v and v[0] == "fallible":
             self.ctx.exits.append(("try", v[1]))
             return v[2]
+        if isinstance(v, tuple) and v and v[0] == "fallible_if":
+            # a fallible value whose failure condition is known: the same exit record as `if cond { return Err(e) }`
+            self.exit_err_if(v[1], v[2])
+            return v[3]
         self.fail(e, "`?` on unsupported value")
 
     def e_const_block(self, e, env):
@@ -1610,7 +1680,19 @@ class Interp:
         """a crate fn / method named `short` in one of the unit's helper files (contract-less helpers, typically introduced by the
         change under test, may live in another file of the crate): the unique fn whose path ends in `::short`"""
         root = self.file_root[0]
-        for rel in getattr(self, "helper_files", ()) or ():
+        files = list(getattr(self, "helper_files", ()) or ())
+        if not want_recv:
+            # a free helper fn is typically placed in the unit's own file or in a parent module (`use super::helper`)
+            rel0 = self.file_root[1]
+            parts = rel0[:-3].split("/")            # src/compiler/prover
+            while len(parts) > 1:
+                parts = parts[:-1]
+                for cand in ("/".join(parts) + ".rs", "/".join(parts) + "/mod.rs"):
+                    if cand not in files and os.path.exists(os.path.join(root, cand)):
+                        files.append(cand)
+            if "src/lib.rs" not in files and os.path.exists(os.path.join(root, "src/lib.rs")):
+                files.append("src/lib.rs")
+        for rel in files:
             for path in fn_paths(root, rel):
                 if (path == short or path.endswith("::" + short)) and not path.startswith("test"):
                     try:
@@ -1896,6 +1978,10 @@ class Interp:
             return recv
         if isinstance(recv, VSymIter) and not args and m in ("max", "min", "count"):
             return VOpaque(m, [recv.sym])
+        if isinstance(recv, VSymIter) and not args and m in ("sum", "product") and ("." + m) not in self.contracts:
+            # a reduction over a collection of unknown length has no closed form here: an UNKNOWN value (a code-side unknown facing an
+            # exact contract value is UNDECIDED, never a difference) - the function's exits and effects are still compared exactly
+            return VOpaque("havoc:" + m + "_over_symbolic_iterator", [recv.sym])
         if m == "and_then" and isinstance(recv, VOpaque) and len(args) == 1 and isinstance(args[0], VClosure):
             inner = self.call_closure(args[0], [VOpaque("some_of", [recv])])
             return VOpaque("and_then", [recv, inner])
@@ -1907,6 +1993,24 @@ class Interp:
             return VOpaque("get", [recv, args[0]])
         if m in ("chunks_exact", "chunks") and isinstance(recv, (Sym, VOpaque)) and len(args) == 1:
             return VSymIter(Sym(VOpaque(m, [recv, args[0]]).canon()))
+        if m == "ok_or_else" and len(args) == 1 and isinstance(args[0], VClosure) and not args[0].params:
+            # `opt.ok_or_else(|| e)` is `opt.ok_or(e)` (the closure only builds the error value)
+            m = "ok_or"
+            args = [self.call_closure(args[0], [])]
+            e = dict(e, m="ok_or")
+        if m == "split_at_checked" and isinstance(recv, (VOpaque, Sym)) and len(args) == 1 and ".split_at_checked" not in self.contracts:
+            return VOpaque("split_at_checked", [recv, args[0]])
+        if m == "ok_or" and isinstance(recv, VOpaque) and recv.name == "split_at_checked" and len(args) == 1 and ".split_at_checked" not in self.contracts:
+            # `buf.split_at_checked(k).ok_or(e)`: None exactly when k > len(buf); otherwise the two windows buf[..k], buf[k..]
+            b, k = recv.args
+            kp = as_poly(k)
+            def win(lo, hi):
+                if isinstance(b, VOpaque) and b.name == "slice":
+                    b0, lo0, hi0 = b.args
+                    return VOpaque("slice", [b0, as_poly(lo0) + lo, (as_poly(lo0) + hi) if hi is not None else hi0])
+                return VOpaque("slice", [b, lo, "end" if hi is None else hi])
+            cond = VOpaque("lt", [VOpaque("len", [b]), kp])
+            return ("fallible_if", cond, canon_err(args[0]), VTuple([win(C(0), kp), win(kp, None)]))
         if m == "ok_or" and isinstance(recv, VOpaque) and recv.name in ("Some", "None") and len(recv.args) == (1 if recv.name == "Some" else 0):
             return VOk(recv.args[0]) if recv.name == "Some" else VErr(canon_err(args[0]))      # a CONCRETE option
         if m == "ok_or" and isinstance(recv, VOpaque) and recv.name != "get" and len(args) == 1:
